@@ -104,6 +104,8 @@ INSTANCE_ATTRS = {"Quantity": ("_unit",), "SI": ("_sisig", "_unit")}
 CLASS_ATTRS = {"_units": "DU", "_displayunits": "DD", "_mul": "DC", "_div": "DC", "_sidict": "DS", "_baseunit": "S"}
 FLOAT_BUILTIN_METHODS = {"__neg__": "GNum (fneg N {x})"}          # methods of float / int the code calls by name
 WHILE_FUEL = 64
+# every generated definition takes the number structure and the module tables, whether it looks at them or not
+USES = "let _ := (N, M) in"
 
 PRELUDE = r"""
 (* ---- fixed prelude: Python primitives on the value universe of the generated code ---- *)
@@ -532,7 +534,7 @@ class Translator:
         recv = self.receiver(m)
         ps = "".join(f" ({ident(n)} : {GTYPE[k]})" for n, k, _d in ([recv] if recv else []) + m.params)
         self.defs.append((m.gname, f"(* {m.cls}.{m.name}: NOT translated -- the hand-written definition is used *)\n"
-                          f"Definition {m.gname}{ps} : result {paren(GTYPE[ret[0]])} :=\n{ind(body)}."))
+                          f"Definition {m.gname}{ps} : result {paren(GTYPE[ret[0]])} :=\n  {USES}\n{ind(body)}."))
         m.external = True
 
     def receiver(self, m: Method):
@@ -607,7 +609,7 @@ class Translator:
         ps = "".join(f" ({ident(n)} : {GTYPE[k]})" for n, k, _d in ([recv] if recv else []) + m.params)
         lo, hi = m.node.lineno, m.node.end_lineno
         self.defs.append((m.gname, f"(* {m.cls}.{m.name}  ({SRC.name}:{lo}-{hi}) *)\n"
-                          f"Definition {m.gname}{ps} : result {paren(GTYPE[m.ret[0]])} :=\n{ind(code)}."))
+                          f"Definition {m.gname}{ps} : result {paren(GTYPE[m.ret[0]])} :=\n  {USES}\n{ind(code)}."))
         self.records.append(self.source_record(m, m.gname))
 
     # ------------------------------------------------------------------ statements
@@ -628,6 +630,8 @@ class Translator:
 
     def bind_code(self, name, e: E, rest: str) -> str:
         if e.raises:
+            if rest.strip() == f"Val {name}":
+                return e.code               # do x <- E; Val x  is E
             return f"do {name} <- {rp(e.code)};\n{rest}"
         return f"let {name} := {e.code} in\n{rest}"
 
@@ -804,13 +808,16 @@ class Translator:
             lst = env.get(target.value.id)
             if lst is None or lst.kind != "L":
                 self.fail(st, "item assignment to something else than a local list of ints")
+            if lst.static != "fresh":
+                self.fail(st, f"in-place change of the list `{target.value.id}`, which may be shared with another object "
+                              "(only a list created in this method and not yet handed on may be changed in place)")
             i = self.expr(target.slice, env)
             e = self.expr(value, env)
             if i.kind != "Z" or e.kind != "Z":
                 self.fail(st, f"lst[i] = v with i of kind {i.kind}, v of kind {e.kind}")
             name = ident(target.value.id)
             r = self.lift([i, e], lambda c: E("L", f"py_list_set {name} {c[0]} {c[1]}", True))
-            return f"do {name} <- {rp(r.code)};\n{cont(env)}"
+            return self.bind_code(name, r, cont(env))
         self.fail(st, "assignment target")
 
     def has_jump(self, stmts) -> bool:
@@ -894,11 +901,14 @@ class Translator:
             return f"Val {tup}" if names else "Val tt"
         a, b = branches(k_join)
         code = render(a, b)
+        after = cont(env2)
+        if names and after.strip() == f"Val {tup}":
+            return code                     # do x <- E; Val x  is E
         if not names:
-            return f"do _ <- ({code});\n{cont(env2)}"
+            return f"do _ <- ({code});\n{after}"
         if len(names) == 1:
-            return f"do {tup} <- ({code});\n{cont(env2)}"
-        return f"do st_ <- ({code});\nlet '{tup} := st_ in\n{cont(env2)}"
+            return f"do {tup} <- ({code});\n{after}"
+        return f"do st_ <- ({code});\nlet '{tup} := st_ in\n{after}"
 
     def assigned_names(self, stmts):
         out = []
@@ -941,6 +951,8 @@ class Translator:
             for n in names:
                 if e[n].kind != env[n].kind:
                     self.fail(st, f"`{n}` changes its kind inside the loop")
+                if env[n].static == "fresh" and e[n].static != "fresh":
+                    self.fail(st, f"the list `{n}` is handed on inside the loop that changes it in place")
             if e["@assigned"] != env["@assigned"]:
                 self.fail(st, "attribute of self assigned inside a loop")
             return f"Val {tup}"
@@ -949,7 +961,7 @@ class Translator:
         try:
             benv = dict(env)
             for n in names:
-                benv[n] = E(env[n].kind, ident(n))
+                benv[n] = E(env[n].kind, ident(n), False, "fresh" if env[n].static == "fresh" else None)
             return benv, yield_k
         finally:
             pass
@@ -979,7 +991,7 @@ class Translator:
             self.ctx.loop_k = saved
         env2 = dict(env)
         for n in names:
-            env2[n] = E(env[n].kind, ident(n))
+            env2[n] = E(env[n].kind, ident(n), False, "fresh" if env[n].static == "fresh" else None)
         pat = f"let '{tup} := st_ in\n" if len(names) > 1 else ""
         stn = "st_" if len(names) > 1 else tup
         return (f"do {stn} <- py_for {lst} (fun ({ident(x)} : {GTYPE[ek]}) ({stn} : {ty}) =>\n{ind(pat + body, 4)}) {tup};\n"
@@ -998,7 +1010,7 @@ class Translator:
             self.ctx.loop_k = saved
         env2 = dict(env)
         for n in names:
-            env2[n] = E(env[n].kind, ident(n))
+            env2[n] = E(env[n].kind, ident(n), False, "fresh" if env[n].static == "fresh" else None)
         pat = f"let '{tup} := st_ in\n" if len(names) > 1 else ""
         stn = "st_" if len(names) > 1 else tup
         return (f"do {stn} <- py_while {WHILE_FUEL} (fun ({stn} : {ty}) =>\n{ind(pat + c.code, 4)})\n"
@@ -1040,11 +1052,14 @@ class Translator:
         if isinstance(n, ast.Name):
             if n.id in env and not n.id.startswith("@"):
                 e = env[n.id]
+                if e.kind == "L" and e.static == "fresh":
+                    # the list object is handed on (stored, passed, returned): from here on it may be shared
+                    env[n.id] = E(e.kind, e.code, False, None)
                 return E(e.kind, e.code, False, e.static)
             self.fail(n, f"name `{n.id}` (not a parameter or a local assigned on every path)")
         if isinstance(n, ast.List):
             if n.elts and all(isinstance(x, ast.Constant) and type(x.value) is int for x in n.elts):
-                return E("L", "[" + "; ".join(cz(x.value) for x in n.elts) + "]")
+                return E("L", "[" + "; ".join(cz(x.value) for x in n.elts) + "]", False, "fresh")
             self.fail(n, "list display other than a list of int literals")
         if isinstance(n, ast.Attribute):
             return self.attribute(n, env)
@@ -1277,7 +1292,7 @@ class Translator:
                     op = "Z.add" if isinstance(lam.body.op, ast.Add) else "Z.sub"
                     ea, eb = self.expr(a, env), self.expr(b, env)
                     if ea.kind == "L" and eb.kind == "L":
-                        return self.lift([ea, eb], lambda c: E("L", f"py_map2 {op} {c[0]} {c[1]}"))
+                        return self.lift([ea, eb], lambda c: E("L", f"py_map2 {op} {c[0]} {c[1]}", False, "fresh"))
             self.fail(n, "list(...) other than list(map(lambda x, y: x +/- y, a, b)) on two int lists")
         if name == "SI":
             return self.construct("SI", args, n, env)
@@ -1482,7 +1497,10 @@ class Translator:
         self.fail(n, f"comparison {type(op).__name__} between kinds {a.kind}, {b.kind}")
 
     def subscript(self, n, env) -> E:
-        o = self.expr(n.value, env)
+        if isinstance(n.value, ast.Name) and n.value.id in env and env[n.value.id].kind == "L":
+            o = E("L", env[n.value.id].code)          # reading an item does not hand the list on
+        else:
+            o = self.expr(n.value, env)
         s = n.slice
         if isinstance(s, ast.Slice):
             if o.kind != "S" or s.step is not None:
@@ -1538,7 +1556,7 @@ class Translator:
                 ps = "".join(f" ({ident(n)} : {GTYPE[k]})" for n, k, _d in init.params)
                 av = " ".join(ident(n) for n, _k, _d in init.params)
                 text = (f"(* cls(value, unit): __new__, then __init__ on the new object (its _unit not assigned yet) *)\n"
-                        f"Definition {name} (cls_ : nat){ps} : result gval :=\n"
+                        f"Definition {name} (cls_ : nat){ps} : result gval :=\n  {USES}\n"
                         f"  do f_ <- {new.gname} cls_ {av};\n  {init.gname} (GNamed cls_ f_ \"\") {av}.")
             elif name == "gen_SI_construct":
                 new, init = self.want("SI", "__new__", at), self.want("SI", "__init__", at)
@@ -1547,7 +1565,7 @@ class Translator:
                 ps = "".join(f" ({ident(n)} : {GTYPE[k]})" for n, k, _d in init.params)
                 av = " ".join(ident(n) for n, _k, _d in init.params)
                 text = (f"(* SI(value, unit): __new__, then __init__ on the new object (_sisig, _unit not assigned yet) *)\n"
-                        f"Definition {name}{ps} : result gval :=\n"
+                        f"Definition {name}{ps} : result gval :=\n  {USES}\n"
                         f"  do f_ <- {new.gname} {av};\n  {init.gname} (GSI f_ [] \"\") {av}.")
             elif name == "py_construct_type":
                 g = self.want_glue("gen_Quantity_construct", at)
@@ -1555,12 +1573,12 @@ class Translator:
                 ps = "".join(f" ({ident(n)} : {GTYPE[k]})" for n, k, _d in init.params)
                 av = " ".join(ident(n) for n, _k, _d in init.params)
                 text = (f"(* <class value>(value, unit): only quantity classes are constructed this way *)\n"
-                        f"Definition {name} (t_ : pytype){ps} : result gval :=\n"
+                        f"Definition {name} (t_ : pytype){ps} : result gval :=\n  {USES}\n"
                         f"  match t_ with TNamed c_ => {g} c_ {av} | _ => Raise Unmodelled end.")
             elif name == "dyn_str_effect":
                 q, s = self.want("Quantity", "__str__", at), self.want("SI", "__str__", at)
                 text = (f"(* str(x) for its effect: the __str__ of the object's class runs; str of a number or a str is total *)\n"
-                        f"Definition {name} (o_ : gval) : result unit :=\n  match o_ with\n"
+                        f"Definition {name} (o_ : gval) : result unit :=\n  {USES}\n  match o_ with\n"
                         f"  | GNamed _ _ _ => do _ <- {q.gname} o_; Val tt\n  | GSI _ _ _ => do _ <- {s.gname} o_; Val tt\n"
                         f"  | _ => Val tt\n  end.")
             else:
@@ -1620,7 +1638,7 @@ class Translator:
             ps = "".join(f" (a{i}_ : {GTYPE[k]})" for i, k in enumerate(pks[0]))
             text = (f"(* x.{meth}(..) by the class of x at run time (a float has {'' if meth in FLOAT_BUILTIN_METHODS else 'no '}"
                     f"such method, a str has none) *)\n"
-                    f"Definition {name} (o_ : gval){ps} : result {paren(GTYPE[ret[0]])} :=\n  match o_ with\n" + "\n".join(arms) + "\n  end.")
+                    f"Definition {name} (o_ : gval){ps} : result {paren(GTYPE[ret[0]])} :=\n  {USES}\n  match o_ with\n" + "\n".join(arms) + "\n  end.")
             self.defs.append((name, text))
             self.glue[name] = (name, ret, pks[0])
             self.note_glue(name)
